@@ -71,6 +71,7 @@ func verifDecodeInput(c IClaims, g1 *genP1, g2 *genP2, asJSON bool) []byte {
 	if ndSymbolic() {
 		b := ndBytes("input")
 		ndAssume(len(b) > 0)
+		verifMapLike(b)
 		return b
 	}
 	if asJSON {
